@@ -21,7 +21,8 @@ theorem feedOpt_some (cfg : Cfg α β) (eng : List σ) (b : InBuf β) (ilen : Na
 
 /-- the both-split branch of `soxr_process`, unconditionally: every channel's input, then `soxr_output_no_callback` -/
 theorem process_split_eq (cfg : Cfg α β) (s : St σ) (inb : Option (InBuf β)) (ilen0 : Nat) (fr wi op : Bool) (olen : Nat)
-    (rs : List (Nat → FnReply β)) (hs : cfg.isplit = true ∧ cfg.osplit = true) (hn : ¬ (op = false ∧ inb.isNone)) :
+    (rs : List (Nat → FnReply β)) (hs : cfg.isplit = true ∧ cfg.osplit = true) (hn : ¬ (op = false ∧ inb.isNone))
+    (he : s.error = none) :
     process E cfg s inb ilen0 fr wi op olen rs =
       { st := (outputNoCb E cfg { (procFlush cfg s inb ilen0 fr wi olen) with
                   eng := feedOpt E cfg s.eng inb (procIlen cfg inb ilen0 wi olen) } olen).1,
@@ -30,8 +31,11 @@ theorem process_split_eq (cfg : Cfg α β) (s : St σ) (inb : Option (InBuf β))
                   eng := feedOpt E cfg s.eng inb (procIlen cfg inb ilen0 wi olen) } olen).2.1,
         out := (outputNoCb E cfg { (procFlush cfg s inb ilen0 fr wi olen) with
                   eng := feedOpt E cfg s.eng inb (procIlen cfg inb ilen0 wi olen) } olen).2.2 } := by
+  have he' : (procFlush cfg s inb ilen0 fr wi olen).error.isSome = false := by
+    show s.error.isSome = false
+    rw [he]; rfl
   unfold process
-  simp only [hn, if_false, hs, and_self, if_true]
+  simp only [hn, if_false, hs, and_self, if_true, he', Bool.false_eq_true]
   rw [splitLoop_nf]
   simp only [Nat.zero_add]
   unfold outputNoCb
@@ -41,6 +45,15 @@ theorem process_split_eq (cfg : Cfg α β) (s : St σ) (inb : Option (InBuf β))
   · have hne : (procFlush cfg s inb ilen0 fr wi olen).eng ≠ [] := hnil
     simp only [hne, if_false, Option.getD_some]
     rfl
+
+/-- a latched error: `soxr_process` returns at once on either path (commit 27b24c1), after the flush bookkeeping -/
+theorem process_err (cfg : Cfg α β) (s : St σ) (inb : Option (InBuf β)) (ilen0 : Nat) (fr wi op : Bool) (olen : Nat)
+    (rs : List (Nat → FnReply β)) (hn : ¬ (op = false ∧ inb.isNone)) (he : s.error.isSome = true) :
+    process E cfg s inb ilen0 fr wi op olen rs
+      = { st := procFlush cfg s inb ilen0 fr wi olen, idone := 0, odone := 0, out := blank cfg.ch } := by
+  have he' : (procFlush cfg s inb ilen0 fr wi olen).error.isSome = true := he
+  unfold process
+  simp only [hn, if_false, he', if_true]
 
 theorem procIlen_le (cfg : Cfg α β) (b : InBuf β) (ilen0 : Nat) (wi : Bool) (olen : Nat) :
     procIlen cfg (some b) ilen0 wi olen ≤ ilen0 := by
@@ -107,15 +120,30 @@ theorem process_sim (Sh : Shape E κ) (cfg : Cfg α β) {c : Nat} (V : ChanConv 
   · unfold process
     simp only [hnone, hn, and_self, if_true, procIlen_proj]
     exact ⟨hfl, by simp, by simp, hb, blank_length _⟩
-  · by_cases hs : cfg.isplit = true ∧ cfg.osplit = true
-    · rw [process_split_eq cfg S inb ilen0 fr wi op olen rs hs hn,
-        process_split_eq (monoCfgC cfg mc) s _ ilen0 fr wi op olen _ hs (by rw [hnone]; exact hn)]
+  · by_cases hE : S.error.isSome = true
+    · rw [process_err cfg S inb ilen0 fr wi op olen rs hn hE,
+        process_err (monoCfgC cfg mc) s _ ilen0 fr wi op olen _ (by rw [hnone]; exact hn) (by rw [h.error]; exact hE)]
+      exact ⟨hfl, rfl, rfl, hb, blank_length _⟩
+    have hEn : S.error = none := by
+      cases hS : S.error with
+      | none => rfl
+      | some e => rw [hS] at hE; simp at hE
+    have hEn' : s.error = none := by rw [h.error]; exact hEn
+    have hEf : (procFlush cfg S inb ilen0 fr wi olen).error.isSome = false := by
+      show S.error.isSome = false
+      rw [hEn]; rfl
+    have hEf' : (procFlush (monoCfgC cfg mc) s (inb.map (projIn cfg c ilen0)) ilen0 fr wi olen).error.isSome = false := by
+      show s.error.isSome = false
+      rw [hEn']; rfl
+    by_cases hs : cfg.isplit = true ∧ cfg.osplit = true
+    · rw [process_split_eq cfg S inb ilen0 fr wi op olen rs hs hn hEn,
+        process_split_eq (monoCfgC cfg mc) s _ ilen0 fr wi op olen _ hs (by rw [hnone]; exact hn) hEn']
       simp only [procIlen_proj]
       obtain ⟨h1, h2, h3, h4⟩ := outputNoCb_sim Sh cfg V (feedOpt_sim Sh cfg hfl inb _ ilen0 hle) olen
       exact ⟨h1, by simp, h2, h3, h4⟩
     · have hs' : ¬ ((monoCfgC cfg mc).isplit = true ∧ (monoCfgC cfg mc).osplit = true) := hs
       unfold process
-      simp only [hnone, hn, hs, hs', if_false, procIlen_proj]
+      simp only [hnone, hn, hs, hs', if_false, procIlen_proj, hEf, hEf', Bool.false_eq_true]
       by_cases hz : procIlen cfg inb ilen0 wi olen = 0
       · simp only [hz, ne_eq, not_true_eq_false, not_false_eq_true, if_true, if_false, ite_not]
         obtain ⟨h1, h2, h3, h4⟩ := output_sim Sh cfg V hfl op olen rs
